@@ -265,6 +265,7 @@ def expandKind : Kind → PExp
   | .enable c => .ref c
   | .disable c => .ref c
   | .action _ c => .ref c
+  | .state _ c => .ref c
 where
   /-- `partial< R₁, …, Rₙ >` without the final "always succeed": the longest successful
       prefix of the sequence. -/
